@@ -152,7 +152,7 @@ class DesignProperty:
     """Configuration + driver of one design-level property."""
 
     def __init__(self, id, judge, rule, cfg_quick, cfg_thorough=None, n_quick=60, n_thorough=1500, limits=None,
-                 case_limit=(20, 120), assumptions=(), strategy=None):
+                 case_limit=(20, 120), assumptions=(), strategy=None, uses_reference=True):
         self.id = id
         self.judge = judge
         self.rule = rule
@@ -165,6 +165,7 @@ class DesignProperty:
         self.case_limit = {"quick": case_limit[0], "thorough": case_limit[1]}
         self.assumptions = list(assumptions)
         self._strategy = strategy
+        self.uses_reference = uses_reference
 
     def strategy(self, tier):
         if self._strategy is not None:
@@ -225,6 +226,11 @@ class DesignProperty:
         return acc
 
     def run(self, tier, seed):
+        if self.uses_reference:
+            from . import fixtures
+            errs = fixtures.selftest()
+            if errs:
+                raise RuntimeError("reference self-test failed (harness error, not a violation): " + "; ".join(errs[:3]))
         acc = runner.run_jobs(_shard_entry, [(self.id, tier, runner.shard_seed(seed, i), self.n[tier]) for i in range(16)])
         acc.extra["generator_config"] = {k: (list(v) if isinstance(v, tuple) else v) for k, v in self.cfg[tier].items()}
         return acc
